@@ -569,6 +569,9 @@ impl<Tx: Debug + ProstMessage + Default, Rx: Debug + ProstMessage + Default> Cha
             // until the peer disconnects.
             if message_len < delimiter_size() {
                 self.front_buf.consume(delimiter_size());
+                // Room was reclaimed: `readable()` may have dropped READABLE
+                // interest on a full buffer and only a `NothingRead` re-arms it.
+                self.interest.insert(Ready::READABLE);
                 return Err(ChannelError::MessageLengthUnderDelimiter {
                     message_len,
                     delimiter_size: delimiter_size(),
@@ -609,6 +612,7 @@ impl<Tx: Debug + ProstMessage + Default, Rx: Debug + ProstMessage + Default> Cha
                         // on the peer's next frame instead of returning the same
                         // error on every subsequent read.
                         self.front_buf.consume(message_len);
+                        self.interest.insert(Ready::READABLE);
                         return Err(ChannelError::InvalidProtobufMessage(decode_error));
                     }
                 };
